@@ -68,6 +68,9 @@ def hexDecode : List Char → Option (List UInt8)
 /-- the ASCII decimal representation of a number, as bytes -/
 def decimalBytes (n : Nat) : List UInt8 := asciiBytes (Nat.toDigits 10 n)
 
+/-- '3' followed by the digit, for every decimal digit of `uid`, most significant first -/
+def uidHex (uid : Nat) : List Char := (Nat.toDigits 10 uid).flatMap (fun c => ['3', c])
+
 /-! ## scripts -/
 
 /-- `evs` delivers exactly the bytes `bs`, split into non-empty reads in some way -/
@@ -80,6 +83,33 @@ inductive Stops : List Ev → Fail → Prop
   | eof (s) : Stops (.eof :: s) .eof
   | empty (s) : Stops (.chunk [] :: s) .eof
   | err (s) : Stops (.err :: s) .ioOther
+
+/-- one successful line read: the reads `cs` were taken from the front of the script; together they hold
+    the line `l`, its CRLF (the first one in the stream) and `extra`; no read happened once a complete
+    line was buffered; nothing else of the state changed -/
+structure LineRead (before after : St) (cs : List (List UInt8)) (l extra : List UInt8) : Prop where
+  nonempty : ∀ c ∈ cs, c ≠ []
+  script : before.script = cs.map Ev.chunk ++ after.script
+  bytes : cs.flatten = l ++ crlf ++ extra
+  first : hasLineEnding (l ++ [13]) = false
+  reads : after.reads = before.reads + cs.length
+  consumed : after.consumed = before.consumed + cs.flatten.length
+  replies : after.replies = before.replies ++ [⟨l, extra⟩]
+  lazy : ∀ cs', cs' <+: cs → cs' ≠ cs → hasLineEnding cs'.flatten = false
+  written : after.written = before.written
+  nwrites : after.nwrites = before.nwrites
+
+/-- a line read that failed because the stream stopped (`f` = eof / io error) after the reads `cs`,
+    which hold no complete line -/
+structure StopRead (before after : St) (cs : List (List UInt8)) (f : Fail) : Prop where
+  nonempty : ∀ c ∈ cs, c ≠ []
+  stop : ∃ stp, Stops stp f ∧ before.script = cs.map Ev.chunk ++ stp ∧ after.script = stp.tail
+  noLine : hasLineEnding cs.flatten = false
+  reads : after.reads = before.reads + cs.length + 1
+  consumed : after.consumed = before.consumed + cs.flatten.length
+  replies : after.replies = before.replies
+  written : after.written = before.written
+  nwrites : after.nwrites = before.nwrites
 
 /-- `SameStream n s t`: as far as the first `n` reply lines are concerned, the scripts `s` and `t` carry
     the same server behaviour and differ only in how the bytes are split into reads. Each reply is a
